@@ -12,3 +12,7 @@ import Iota.Props.C05
 import Iota.Tie.C19
 import Iota.Props.C19
 import Iota.Props.C16
+import Iota.Tie.C03
+import Iota.Props.C03
+import Iota.Tie.Curl
+import Iota.Props.C06
